@@ -60,12 +60,24 @@ ownf x: List!(Int, _) = x
 reff x: Ref(List!(Int, _)) = 1
 owni! x: Int! =
     print! x
+pda! a: List!(Int, _), b: Ref(List!(Int, _)) := ![0], d: List!(Int, _) := ![0] =
+    print! a, b, d
+pdb! a: Ref(List!(Int, _)), b: List!(Int, _) := ![0], d: Ref(List!(Int, _)) := ![0] =
+    print! a, b, d
+fda a: List!(Int, _), b: Ref(List!(Int, _)) := ![0], d: List!(Int, _) := ![0] = 1
+fdb a: Ref(List!(Int, _)), b: List!(Int, _) := ![0], d: Ref(List!(Int, _)) := ![0] = 1
+pvb! a: List!(Int, _), *xs: Obj =
+    print! a, xs
 C = Class {.x = Int}
 C.
     mt! ref self, a: Ref(List!(Int, _)), b: List!(Int, _) =
         print! a, b, self.x
     mo! ref self, a: List!(Int, _), b: Ref(List!(Int, _)) =
         print! a, b, self.x
+    mda! ref self, a: List!(Int, _), b: Ref(List!(Int, _)) := ![0], d: List!(Int, _) := ![0] =
+        print! a, b, d, self.x
+    mdb! ref self, a: Ref(List!(Int, _)), b: List!(Int, _) := ![0], d: Ref(List!(Int, _)) := ![0] =
+        print! a, b, d, self.x
 c = C.new {.x = 1}
 """
 
@@ -84,13 +96,35 @@ SIGS = {
     "gen!": SIG([P("x", KIMM)]), "two!": SIG([P("a", KMUT), P("b", KREF)]), "owt!": SIG([P("a", KREF), P("b", KMUT)]),
     "dfl!": SIG([P("a", KREF)], d=[P("b", KMUT)]), "dfr!": SIG([P("a", KMUT)], d=[P("b", KREF)]),
     "var!": SIG(var=[P("xs", KIMM)]), "ownf": SIG([P("x", KMUT)]), "reff": SIG([P("x", KREF)]), "owni!": SIG([P("x", KMUT)]),
+    "pda!": SIG([P("a", KMUT)], d=[P("b", KREF), P("d", KMUT)]), "pdb!": SIG([P("a", KREF)], d=[P("b", KMUT), P("d", KREF)]),
+    "fda": SIG([P("a", KMUT)], d=[P("b", KREF), P("d", KMUT)]), "fdb": SIG([P("a", KREF)], d=[P("b", KMUT), P("d", KREF)]),
+    "pvb!": SIG([P("a", KMUT)], var=[P("xs", KIMM)]),
     "print!": SIG(var=[P("objects", KREF)], d=[P("sep", KIMM), P("end", KIMM), P("file", KMUT), P("flush", KIMM)]),
 }
 METHOD_SIGS = {
     "mt!": SIG([P("self", KREF), P("a", KREF), P("b", KMUT)], method=1),
     "mo!": SIG([P("self", KREF), P("a", KMUT), P("b", KREF)], method=1),
     "push!": SIG([P("self", KMUT), P("elem", KIMM)], method=1),
+    "mda!": SIG([P("self", KREF), P("a", KMUT)], d=[P("b", KREF), P("d", KMUT)], method=1),
+    "mdb!": SIG([P("self", KREF), P("a", KREF)], d=[P("b", KMUT), P("d", KREF)], method=1),
 }
+# callee -> kinds of (a, b, d): one non-default and two default parameters (None: no such parameter)
+ABD = {"pda!": (KMUT, KREF, KMUT), "pdb!": (KREF, KMUT, KREF), "fda": (KMUT, KREF, KMUT), "fdb": (KREF, KMUT, KREF),
+       "c.mda!": (KMUT, KREF, KMUT), "c.mdb!": (KREF, KMUT, KREF)}
+# (text with {a} {b} {d}, parameters passed): every number of defaults filled positionally, the rest by keyword or not at all
+ABD_SHAPES = [("{f} {a}", "a"), ("{f} {a}, {b}", "ab"), ("{f} {a}, {b}, {d}", "abd"), ("{f}({a}, b := {b})", "ab"),
+              ("{f}({a}, d := {d})", "ad"), ("{f}({a}, b := {b}, d := {d})", "abd"), ("{f}({a}, d := {d}, b := {b})", "abd"),
+              ("{f}({a}, {b}, d := {d})", "abd"), ("{f}(a := {a}, b := {b})", "ab"), ("{f}(d := {d}, a := {a})", "ad")]
+# methods without default parameters, called on the instance and through the class with explicit self
+AB2 = {"c.mt!": (KREF, KMUT), "c.mo!": (KMUT, KREF), "C.mt! c,": (KREF, KMUT), "C.mo! c,": (KMUT, KREF),
+       "two!": (KMUT, KREF), "owt!": (KREF, KMUT), "pvb!": (KMUT, KIMM)}
+
+
+def abd_call(f, shape, a, b, d):
+    text = shape.format(f=f, a=a, b=b, d=d)
+    if f.startswith("f"):
+        return "i0 = " + text.replace(f + " ", f + "(", 1) + ")" if not text.startswith(f + "(") else "i0 = " + text
+    return text
 
 
 GENERIC = ["gen!"]            # subroutines of the prelude declared with a generic parameter (class Known_C23)
@@ -170,9 +204,10 @@ class Gen:
         if L:
             kinds += ["rebind", "rebind", "cont", "cont", "blockval", "bare", "redef", "asc"]
             if func:
-                kinds += ["callf", "callf"]
+                kinds += ["callf", "callf", "dcallf"]
             else:
-                kinds += ["call", "call", "call", "call", "use", "use", "use", "method", "method", "kw", "star", "dflt"]
+                kinds += ["call", "call", "call", "call", "use", "use", "use", "method", "method", "kw", "star", "dflt",
+                          "dcall", "dcall", "dcall", "call2"]
         if I:
             kinds += ["iop", "iattr"] + ([] if func else ["icall"])
         if sc["depth"] < 3:
@@ -224,6 +259,25 @@ class Gen:
             if L == L2 and f in ("two!", "owt!", "dfl!", "dfr!") and r.random() < 0.7:
                 L2 = self.pick(sc)
             self.moved(sc, L if f in ("two!", "dfr!") else L2)
+            return [sp + "%s %s, %s" % (f, L, L2)]
+        if k in ("dcall", "dcallf"):
+            # one non-default and two default parameters; any number of the defaults positionally, by keyword, or omitted
+            f = r.choice(["fda", "fdb"] if k == "dcallf" else list(ABD))
+            shape, passed = r.choice(ABD_SHAPES)
+            args = {"a": L, "b": L2, "d": self.pick(sc)}
+            if r.random() < 0.5:
+                args[r.choice("abd")] = "![9]"
+            for q, kind in zip("abd", ABD[f]):
+                if q in passed and kind == KMUT and args[q] != "![9]":
+                    self.moved(sc, args[q])
+            text = abd_call(f, shape, args["a"], args["b"], args["d"])
+            return [sp + (text.replace("i0 = ", self.fresh("i") + " = ") if text.startswith("i0 = ") else text)]
+        if k == "call2":
+            f = r.choice(list(AB2))
+            if AB2[f][0] == KMUT:
+                self.moved(sc, L)
+            if AB2[f][1] == KMUT:
+                self.moved(sc, L2)
             return [sp + "%s %s, %s" % (f, L, L2)]
         if k == "kw":
             f = r.choice(["own", "two", "dfl", "dfr", "owt"])
@@ -358,7 +412,7 @@ def patch(e, stats):
     t = e[0]
     if t == 1 and len(e) == 4:
         name = sxs(e[2])
-        if is_mut_name(name) or name in SIGS or name == "c":
+        if is_mut_name(name) or name in SIGS or name in ("c", "C"):
             m = 1 if is_mut_name(name) else 0
             if m != e[3]:
                 stats["is_mut"] = stats.get("is_mut", 0) + 1
@@ -369,6 +423,8 @@ def patch(e, stats):
         want = None
         if attr:
             want = METHOD_SIGS.get(sxs(attr[0]))
+            if want is not None and callee and callee[0] == 1 and sxs(callee[2]) == "C":
+                want = [want[0], 0] + want[2:]          # called through the class: `self` is the first argument
         elif callee and callee[0] == 1:
             want = SIGS.get(sxs(callee[2]))
         if want is not None:
@@ -390,7 +446,10 @@ def patch(e, stats):
 def canon_sig(sg):
     if len(sg) != 6:
         return list(sg)
-    return [sg[0], sg[1]] + [[(sxs(p[0][0]) if p[0] else None, p[1]) for p in part] for part in sg[2:]]
+    m = sg[1]
+    if isinstance(m, list):          # (is_method_call, callee object is the class): self is implicit iff a method not called through its class
+        m = 1 if (m[0] and not m[1]) else 0
+    return [sg[0], m] + [[(sxs(p[0][0]) if p[0] else None, p[1]) for p in part] for part in sg[2:]]
 
 
 def loc_line(loc):
@@ -521,7 +580,7 @@ def placement(first, use, wrap):
     """(source after the prelude, label): v defined, then `first` (a moving or a non-moving statement), then `use`"""
     v = "ml1"
     a, u = first.format(v=v), use.format(v=v)
-    pre = "ml8 = ![8]\nml5 = ![5]\n"
+    pre = "ml8 = ![8]\nml5 = ![5]\nml4 = ![4]\n"
     if wrap == "module":
         return pre + "ml1 = ![1, 2]\n%s\n%s\n" % (a, u)
     if wrap == "proc":
@@ -535,13 +594,39 @@ def placement(first, use, wrap):
     raise AssertionError(wrap)
 
 
-def systematic_cases(rng=None, sample=None):
+def param_position_firsts():
+    """(label, statement, moves?): {v} at every parameter position of every callee kind, for every way of passing the defaults"""
+    out = []
+    others = {"a": "ml8", "b": "ml5", "d": "ml4"}
+    for f, kinds in ABD.items():
+        for shape, passed in ABD_SHAPES:
+            for q, kind in zip("abd", kinds):
+                if q not in passed:
+                    continue
+                args = dict(others)
+                args[q] = "{v}"
+                out.append(("%s %s at %s" % (f, shape.replace("{f}", "").strip(), q),
+                            abd_call(f, shape, args["a"], args["b"], args["d"]).replace("i0 = ", "i9 = "), kind == KMUT))
+    for f, kinds in AB2.items():
+        for i, kind in enumerate(kinds):
+            args = ["ml8", "ml5"]
+            args[i] = "{v}"
+            out.append(("%s at %d" % (f, i), "%s %s, %s" % (f, args[0], args[1]), kind == KMUT))
+    out.append(("pvb! variadic", "pvb! ml8, ml5, {v}", False))
+    return out
+
+
+def systematic_cases(rng=None, sample=None, sample_params=None):
+    pp = [(lbl, st, mv, uk, USES[uk], w) for (lbl, st, mv) in param_position_firsts()
+          for uk in ("print", "receiver", "rebind") for w in ("module", "lambda")]
+    if sample_params is not None and len(pp) > sample_params:
+        pp = rng.sample(pp, sample_params)
     combos = [(k, a, True) for k, a in MOVES.items()] + [(k, a, False) for k, a in NONMOVES.items()]
     allc = [(fk, fa, mv, uk, ua, w) for (fk, fa, mv) in combos for uk, ua in USES.items() for w in WRAPS]
     if sample is not None and len(allc) > sample:
         allc = rng.sample(allc, sample)
     out = []
-    for fk, fa, mv, uk, ua, w in allc:
+    for fk, fa, mv, uk, ua, w in allc + pp:
         c = Case(PREAMBLE + placement(fa, ua, w), "systematic", None, "%s then %s in %s" % (fk, uk, w))
         c.expect_uam = mv          # the property statement: a use after a moving statement is rejected, after any other it is not
         out.append(c)
@@ -589,10 +674,13 @@ def run(ctx):
     proof = ctx.coq(["Owner/Props_C23.v"])
     h = Harness(ctx, "owner", env=ctx.erg_env())
     model = ctx.model("Owner")
-    cases = corpus_cases() + systematic_cases(ctx.rng, ctx.scale(150, None)) + gen_cases(ctx, ctx.scale(450, 4000))
+    cases = corpus_cases() + systematic_cases(ctx.rng, ctx.scale(150, None), ctx.scale(120, None)) + gen_cases(ctx, ctx.scale(450, 4000))
     if ctx.thorough:
         ctx.cov["exhaustive_small_scope"] = ("every moving statement (%d) and every non-moving statement (%d) followed by every kind of "
-                                             "use (%d) in every scope arrangement (%d)" % (len(MOVES), len(NONMOVES), len(USES), len(WRAPS)))
+                                             "use (%d) in every scope arrangement (%d); the variable at every parameter position (non-default, "
+                                             "default, variadic) of every callee kind (procedure, function, method on the instance, method "
+                                             "through the class) for every way of passing the defaults (%d call statements x 3 uses x 2 scopes)"
+                                             % (len(MOVES), len(NONMOVES), len(USES), len(WRAPS), len(param_position_firsts())))
     ctx.log("%d cases" % len(cases))
     results = evaluate(ctx, h, model, cases)
     report(ctx, proof, h, model, results)
